@@ -1,9 +1,11 @@
 (* Extract.v — extraction of the executable model to OCaml (ExtrOcamlBasic only: bool, option, unit, list,
    prod, sumbool, sumor mapped to OCaml's; N, Z, positive, nat stay the extracted inductive types). *)
-Require Import Base EncoderModel.
+Require Import Base EncoderModel Timestamp.
 Require Extraction.
 Require Import ExtrOcamlBasic.
 Extraction Blacklist String List Nat Int.
 Extraction "model.ml"
   N.add N.mul N.sub N.div_eucl N.compare N.of_nat N.to_nat Z.of_N Z.to_N Z.opp
-  enc_init estep eruns stream flush.
+  Z.compare
+  enc_init estep eruns stream flush
+  get_time_offset add_time_offset ts_lt ts_le bt_init bt_add.
